@@ -18,6 +18,8 @@ one() {
   rm -rf $wt $sv; git -C /repo worktree prune
   git -C /repo worktree add --detach -q $wt HEAD 2>/dev/null || { echo "$id $p NOWORKTREE"; return; }
   if ! git -C $wt apply /verif/seeded/$id/patch.diff 2>/dev/null; then echo "$id $p NOAPPLY"; git -C /repo worktree remove --force $wt; return; fi
+  # contracts: the ones in /repo's working tree (they may be ahead of HEAD while contracts are being written)
+  for f in zz_verif_contracts.go spec/zz_verif_contracts.go fclient/zz_verif_contracts.go tokens/zz_verif_contracts.go; do cp /repo/$f $wt/$f; done
   mkdir -p $sv/work $sv/evidence
   ln -s /verif/spec $sv/spec; ln -s /verif/ledger $sv/ledger; ln -s /verif/known_findings.json $sv/known_findings.json
   /verif/bin/gvc check --repo $wt --verif $sv --prop $p --tier quick > /verif/work/par/$id-$p.out 2>&1; rc=$?
